@@ -313,9 +313,19 @@ def _char_consts(facts, f):
     return out
 
 
-def _is_dir_table(g):
+def _is_dir_table(g, facts=None, as_char_pred=False):
     """-> (ok, why): the boolean the accessor returns for each class of last character, read off every return path"""
     from engine import sym
+    if facts is not None and not as_char_pred:
+        # `name.ends_with(|c| c == '/' || c == '\\')` / `name.ends_with(&['/', '\\'][..])`: the last character is tested by a pattern
+        ew = [t for _, t in g.calls() if re.search(r"str>::ends_with$", t.get("callee") or "")]
+        if len(ew) == 1 and len([1 for _, t in g.calls() if not re.search(r"::name$|Deref::deref$|as_str$|AsRef", t.get("callee") or "")]) == 1 and not g.loops():
+            clo = facts.closures_of(g)
+            if len(clo) == 1:
+                return _is_dir_table(clo[0], None, as_char_pred=True)
+            consts = {x[2] for t_ in [ew[0]] for a_ in t_["args"][1:] for x in _walk_sym(norm(Ex(g).operand(a_, (0, None)))) if isinstance(x, tuple) and x and x[0] == "const" and isinstance(x[2], int)}
+            if consts == {47, 92}:
+                return True, ""
     S = sym.Sym(g, max_paths=5000)
     S._returns = []
     try:
@@ -330,19 +340,26 @@ def _is_dir_table(g):
 
     def is_char(d):
         # the character drawn from the name: payload of the iterator's answer / of `last()` / of `chars().next_back()`
+        if as_char_pred:
+            return d[0] != "discr" and d[0] != "bin" and any(isinstance(x, tuple) and x and x[0] == "arg" for x in _walk_sym(d))
         return any(isinstance(x, tuple) and x and x[0] == "call" and re.search(r"Iterator::next$|next_back$|Iterator::last$|str>::ends_with$", x[1]) for x in _walk_sym(d)) and d[0] != "discr"
     explicit = {}
     for r in rets:
         for d, v in r["conds"]:
             if is_char(d) and d[0] != "bin" and v is not None:
                 explicit.setdefault(d, set()).add(v)
-    for cv, want in ((47, True), (92, True), (97, False), (0x5C + 1, False), (None, False)):
+    for cv, want in ((47, True), (92, True), (97, False), (0x5C + 1, False)) + (() if as_char_pred else ((None, False),)):
         hit = []
         for r in rets:
             okp = True
             for d, v in r["conds"]:
                 if d[0] == "discr":
-                    some = (v != 0)
+                    if v is None:
+                        # the `otherwise` edge of a test of an Option's discriminant: the variant the explicit edges do not name
+                        ex_ = {v2 for r2 in rets for d2, v2 in r2["conds"] if d2 == d and v2 is not None}
+                        some = (ex_ == {0})
+                    else:
+                        some = (v != 0)
                     if (cv is None) == some:
                         okp = False
                 elif cv is None:
@@ -394,7 +411,7 @@ def accessor_sibling_rules(facts, rep, rule="C10-SEQ"):
                     "ZipFile::is_dir tests %s, ZipStreamFileMetadata::is_dir tests %s: the two readers disagree on which entries are directories" % (sorted(map(chr, ca)), sorted(map(chr, cb))))
     # ... and the predicate itself, decided on the value flow (E9): for a last character '/', '\\', any other one, and for the empty name
     for nm, g in (("ZipFile", a), ("ZipStreamFileMetadata", b)):
-        good, why = _is_dir_table(g)
+        good, why = _is_dir_table(g, facts)
         ok &= rep.check(good, rule, "is_dir-table:%s" % nm, where(g, g.span), "is_dir() <=> the name's last character is '/' or '\\' (false for an empty name)",
                         "%s::is_dir does not answer `last character is a separator`: %s" % (nm, why))
     for nm, pat in (("ZipFile", r"^read::ZipFile::<'a>::is_file$"), ("ZipStreamFileMetadata", r"^read::stream::ZipStreamFileMetadata::is_file$")):
